@@ -91,7 +91,7 @@ class C03Spec:
     # -- the real design, through the public API only
     def build(self):
         from amaranth.hdl import (Module, ClockDomain, Signal, Elaboratable, ResetInserter, EnableInserter, DomainRenamer,
-                                  ClockSignal, ResetSignal, Cat)
+                                  ClockSignal, ResetSignal, Cat, signed)
         from amaranth.lib.memory import Memory
         cfg, mdl = self.cfg, self.model
         two = "other" in cfg["doms"]
@@ -103,7 +103,8 @@ class C03Spec:
         ctl = {n: Signal(name=n) for n in ("r1", "r2", "e1", "e2")}
         cnt = Signal(2, init=ini["cnt"], name="cnt")
         rl = Signal(1, init=ini["rl"], reset_less=True, name="rl")
-        sp = Signal(2, init=ini["sp0"] | (ini["sp1"] << 1), name="sp")
+        # signed on purpose: its sign bit belongs to another module / domain than bit 0
+        sp = Signal(signed(2), init=ini["sp0"] | (ini["sp1"] << 1), name="sp")
         cntb = Signal(2, init=ini.get("cntb", 0), name="cntb")
         rlb = Signal(1, init=ini.get("rlb", 0), reset_less=True, name="rlb")
         obs = Signal(2, name="obs")
